@@ -70,12 +70,15 @@ def refWrite (t : Term) (bs : List UInt8) (stats : Stats) : Term × Stats := Id.
   for b in bs do
     let lastLine := t.cy == t.h
     let willLf := b == 10 || (b != 13 && b != 8 && b != 9 && t.cx == t.w)
-    if willLf && lastLine then (if t.vy == t.sb then scr := scr + 1 else adv := adv + 1)
+    if willLf && lastLine && t.vy == t.sb then scr := scr + 1
+    if willLf && lastLine && t.vy != t.sb then adv := adv + 1
     if b == 13 then cr := cr + 1
     else if b == 10 then lfN := lfN + 1
-    else if b == 8 then (if t.cx > 1 then bs1 := bs1 + 1 else bs0 := bs0 + 1)
+    else if b == 8 && t.cx > 1 then bs1 := bs1 + 1
+    else if b == 8 then bs0 := bs0 + 1
     else if b == 9 then tab := tab + 1
-    else (if t.cx == t.w then wrap := wrap + 1 else plain := plain + 1)
+    else if t.cx == t.w then wrap := wrap + 1
+    else plain := plain + 1
     t := t.byte b
   let stats := stats.bump "byte_cr" cr |>.bump "byte_lf" lfN |>.bump "byte_bs_col1" bs0
     |>.bump "byte_bs" bs1 |>.bump "byte_tab" tab |>.bump "byte_wrap" wrap |>.bump "byte_plain" plain
@@ -126,7 +129,7 @@ def processLine (st : St) (line : String) : IO St := do
     | ["A", _, w, h, fg, bg] =>
       let w := nat! w; let h := nat! h
       let dom := w ≥ 1 ∧ h ≥ 1 ∧ w * (h + st.sb) * 3 < 4294967296
-      st := { st with ref := some (Term.new w h st.sb st.tab (UInt8.ofNat (nat! fg)) (UInt8.ofNat (nat! bg))),
+      st := { st with ref := if dom then some (Term.new w h st.sb st.tab (UInt8.ofNat (nat! fg)) (UInt8.ofNat (nat! bg))) else none,
                       inDomain := dom, stats := geomStats st.stats w h st.sb st.tab }
       if !dom then st := { st with stats := st.stats.bump "outside_domain" }
     | ["W", _, hex] =>
